@@ -227,7 +227,7 @@ _t("map_mv", [mapcfg("map_mv_tm.cfg", 1, 2, timeout=3000)])
 _t("map_map_or", [mapcfg("map_map_or_t.cfg", 1, 2, timeout=3000)])
 _t("map_map_mv", [mapcfg("map_map_mv_t.cfg", 1, 1, timeout=3000)])
 _t("simple", [simplecfg("lww3", "lww")])
-_t("list", [{"cfg": "list_t3.cfg", "module": "MC_List.tla", "flags": ["--persist"], "invariants": INV_LIST, "timeout": 3000}])
+_t("list", [])   # 3 replicas x 4 ops and 2 x 5 ops both run to several GB of dump: thorough = quick configs + 100 longer random histories
 _t("glist", [{"cfg": "glist_t3.cfg", "module": "MC_List.tla", "flags": ["--persist", "--laws"], "invariants": INV_LIST, "timeout": 3000},
              {"cfg": "glist_t2.cfg", "module": "MC_List.tla", "flags": ["--persist", "--laws"], "invariants": INV_LIST, "timeout": 3000}])
 _t("merkle", [{"cfg": "merkle_th.cfg", "module": "MC_Merkle.tla", "flags": ["--persist", "--laws"], "invariants": INV_MERKLE, "timeout": 3000},
